@@ -82,9 +82,17 @@ def show(t, names):
         return _show(t, names)
 
 
+class CyclicBinding(Exception):
+    """a chain of variable bindings that never ends (X -> Y -> X): the engine built a cyclic binding"""
+
+
 def _show(t, names):
+    steps = 0
     while isinstance(t, Variable) and t._is_bound:
         t = t._value
+        steps += 1
+        if steps > 200:
+            raise CyclicBinding('variable binding chain does not end')
     if isinstance(t, Variable):
         k = id(t)
         if k not in names:
